@@ -62,7 +62,7 @@ theorem onRequestComplete_lit (cfg : Reverse.Cfg) (m : Nat → Bool) (pick : Nat
     (hm : anyMatch m t = true) (h : litOnly m t = true) :
     onRequestComplete cfg m pick ok t req s =
       ⟨{ s with client := { s.client with buffer := s.client.buffer ++ litResps m t } }, false, none⟩ := by
-  unfold onRequestComplete
+  unfold onRequestComplete routeRequest
   rw [if_neg (by rw [hu]; simp), if_pos hm]
   exact handleRequest_lit cfg m pick ok t req s hp h
 
@@ -285,8 +285,8 @@ theorem rrun_stream (cfg : RCfg) (x₁ : Bytes) (P₁ : Parser) (tl : Reqs)
             rv := { client := { buffer := revAnswer cfg true P₁ } } } := by
         intro q
         unfold rfirst
-        have hinv : (!(cfg.table.any (fun pl => !pl.isEmpty) && !Px.Url.utf8Valid (webPath p')) &&
-            anyMatch (cfg.matchPat (webPath p')) cfg.table) = true := by rw [cutf, cm]; simp
+        have hinv : (Px.Url.utf8Valid (webPath p') && anyMatch (cfg.matchPat (webPath p')) cfg.table) = true := by
+          rw [cutf, cm]; rfl
         simp only [hinv, if_true,
           onRequestComplete_lit cfg.rv _ _ true cfg.table p' ({} : Reverse.St) cpa cutf cm clit, afterHandle]
         simp only [revAnswer, if_true] at cans
@@ -299,7 +299,7 @@ theorem rrun_stream (cfg : RCfg) (x₁ : Bytes) (P₁ : Parser) (tl : Reqs)
         have hp'eq : p' = withTotal P₁ n := by
           rw [← hclr]; cases p'; simp_all
         have hw1 : rstep cfg ({ request := p }, none) (.cseg seg) = (s1, none) := by
-          simp only [rstep, hp', hnc, Bool.false_eq_true, if_false, cw, cws, Bool.not_true, Bool.or_self, hb, hrf]
+          simp only [rstep, hp', hnc, Bool.false_eq_true, if_false, cw, cws, cutf, Bool.not_true, Bool.and_false, Bool.or_self, hb, hrf]
           simp [s1, hp'eq]
         obtain ⟨ns, hns, hloop⟩ := loopSegs_all (revHooks cfg) (rstepL cfg) (fun s => s.phase = .routed)
           (fun _ _ _ _ => rfl) segs hne' tl (fun r hr' => (hl r hr').1) (rev_goodAll cfg hl) [] none
@@ -315,7 +315,7 @@ theorem rrun_stream (cfg : RCfg) (x₁ : Bytes) (P₁ : Parser) (tl : Reqs)
         have hld : ∀ r ∈ done, RevLaterOk cfg r := fun r hr' => hl r (by rw [e1]; simp [hr'])
         have hlr : ∀ r ∈ rs', RevLaterOk cfg r := fun r hr' => hl r (by rw [e1]; simp [hr'])
         have hw1 : rstep cfg ({ request := p }, none) (.cseg seg) = ((handed done ns).foldl (rstepL cfg) s1, pl') := by
-          simp only [rstep, hp', hnc, Bool.false_eq_true, if_false, cw, cws, Bool.not_true, Bool.or_self, hb, hrf,
+          simp only [rstep, hp', hnc, Bool.false_eq_true, if_false, cw, cws, cutf, Bool.not_true, Bool.and_false, Bool.or_self, hb, hrf,
             rdata, hclr]
           have hk' : isKeepAlive (withTotal P₁ n) = true := hka
           simp only [hk', Bool.not_true, Bool.false_eq_true, if_false]
